@@ -5,7 +5,12 @@
     The launcher's program is not written here: it is the list of [action]s extracted from
     the source of [func launch] (gen/glbfacts launch), interpreted by [step_launcher].
 
-    - [ANotify]    signal.Notify(interrupt, os.Interrupt): from now on SIGINT is put into the channel
+    - [ANotify]    signal.Notify(interrupt, os.Interrupt) on a channel with capacity >= 1, listening for the
+                   signal Done() sends: from now on SIGINT is put into the channel (the extractor checks
+                   capacity, signal set and Done()'s signal)
+    - [ANotifyUnbuffered] the same on an unbuffered channel: os/signal never blocks, so a signal that arrives
+                   while the launcher is not parked in its select is dropped (never well-formed; kept in the
+                   model to show what goes wrong: [unbuffered_notify_deadlocks])
     - [AStart]     cmd.Start(): the daemon process exists, its parent is the launcher
     - [AWritePid]  binary.Write(os.Stdout, pid)
     - [ASpawnWait] go func() { cmd.Wait(); close(finished) }()
@@ -27,7 +32,8 @@ Definition ubytes := list N.
 Definition bytes_of_string (s : string) : ubytes := map N_of_ascii (list_ascii_of_string s).
 Coercion bytes_of_string : string >-> ubytes.
 
-Inductive action := ANotify | AStart | AWritePid | ASpawnWait | ASelect | AUnknown (what : ubytes).
+Inductive action := ANotify | AStart | AWritePid | ASpawnWait | ASelect | AUnknown (what : ubytes)
+                  | ANotifyUnbuffered.
 
 Definition pid := nat.
 Definition pid_init : pid := 1.      (* init or a subreaper: whoever adopts orphans *)
@@ -52,6 +58,8 @@ Record state := mkSt {
   sigchan : bool;            (* a signal sits in the (buffered, size 1) channel *)
   pending : bool;            (* SIGINT generated for the launcher, not yet delivered *)
   stdout : option pid; stderr : bool; waiter : bool;
+  selected : bool;           (* the launcher has passed its select *)
+  unbuf : bool;              (* the Notify channel is unbuffered *)
   (* daemon *)
   dalive : bool; dpc : dprog; dparent : pid;
   marker : bool; done : bool;
@@ -60,7 +68,7 @@ Record state := mkSt {
 }.
 
 Definition init : state :=
-  mkSt CInit LNone [] false false false None false false false DMarker pid_init false false false false.
+  mkSt CInit LNone [] false false false None false false false false false DMarker pid_init false false false false.
 
 Inductive label := StepCaller | StepLauncher | StepDaemon | Deliver.
 
@@ -73,62 +81,69 @@ Definition launch_result (l : lstatus) (so : option pid) (se : bool) : outcome :
   end.
 
 Definition step_caller (acts : list action) (s : state) : option state :=
-  let '(mkSt c l pc h ch pe so se w da dp pa m d rm rd) := s in
+  let '(mkSt c l pc h ch pe so se w sl ub da dp pa m d rm rd) := s in
   match c with
-  | CInit => Some (mkSt CWait LRun acts h ch pe so se w da dp pa m d rm rd)
+  | CInit => Some (mkSt CWait LRun acts h ch pe so se w sl ub da dp pa m d rm rd)
   | CWait => match l with
-             | LExited | LAbnormal => Some (mkSt (CRet (launch_result l so se)) l pc h ch pe so se w da dp pa m d m d)
+             | LExited | LAbnormal => Some (mkSt (CRet (launch_result l so se)) l pc h ch pe so se w sl ub da dp pa m d m d)
              | _ => None                     (* cmd.Run() blocks while the launcher runs *)
              end
-  | CRet o => Some (mkSt (CExit o) l pc h ch pe so se w da dp pa m d rm rd)
+  | CRet o => Some (mkSt (CExit o) l pc h ch pe so se w sl ub da dp pa m d rm rd)
   | CExit _ => None
   end.
 
 Definition step_launcher (s : state) : option state :=
-  let '(mkSt c l pc h ch pe so se w da dp pa m d rm rd) := s in
+  let '(mkSt c l pc h ch pe so se w sl ub da dp pa m d rm rd) := s in
   match l with
   | LRun =>
       match pc with
       | [] => (* launch returned, os.Exit(0); the daemon is re-parented *)
-          Some (mkSt c LExited [] h ch pe so se w da dp pid_init m d rm rd)
-      | ANotify :: r => Some (mkSt c l r true ch pe so se w da dp pa m d rm rd)
+          Some (mkSt c LExited [] h ch pe so se w sl ub da dp pid_init m d rm rd)
+      | ANotify :: r => Some (mkSt c l r true ch pe so se w sl ub da dp pa m d rm rd)
       | AStart :: r =>
-          if da then Some (mkSt c l r h ch pe so se w da dp pa m d rm rd)
-          else Some (mkSt c l r h ch pe so se w true DMarker pid_launcher m d rm rd)
+          if da then Some (mkSt c l r h ch pe so se w sl ub da dp pa m d rm rd)
+          else Some (mkSt c l r h ch pe so se w sl ub true DMarker pid_launcher m d rm rd)
       | AWritePid :: r =>
-          if da then Some (mkSt c l r h ch pe (Some pid_daemon) se w da dp pa m d rm rd)
-          else (* cmd.Process is nil: panic *) Some (mkSt c LAbnormal r h ch pe so se w da dp pid_init m d rm rd)
+          if da then Some (mkSt c l r h ch pe (Some pid_daemon) se w sl ub da dp pa m d rm rd)
+          else (* cmd.Process is nil: panic *) Some (mkSt c LAbnormal r h ch pe so se w sl ub da dp pid_init m d rm rd)
       | ASpawnWait :: r =>
           (* cmd.Wait() on a command that was not started returns an error, which is written to stderr *)
-          Some (mkSt c l r h ch pe so (se || negb da) true da dp pa m d rm rd)
+          Some (mkSt c l r h ch pe so (se || negb da) true sl ub da dp pa m d rm rd)
       | ASelect :: r =>
           (* the daemon of this model never exits, so [finished] is never closed *)
-          if ch then Some (mkSt c l r h false pe so se w da dp pa m d rm rd) else None
-      | AUnknown _ :: r => Some (mkSt c l r h ch pe so se w da dp pa m d rm rd)
+          if ch then Some (mkSt c l r h false pe so se w true ub da dp pa m d rm rd) else None
+      | AUnknown _ :: r => Some (mkSt c l r h ch pe so se w sl ub da dp pa m d rm rd)
+      | ANotifyUnbuffered :: r => Some (mkSt c l r true ch pe so se w sl true da dp pa m d rm rd)
       end
   | _ => None
   end.
 
 (** the kernel delivers the pending SIGINT: to the handler (Go runtime -> channel), or it kills *)
+Definition at_select (pc : list action) : bool :=
+  match pc with ASelect :: _ => true | _ => false end.
+
 Definition step_deliver (s : state) : option state :=
-  let '(mkSt c l pc h ch pe so se w da dp pa m d rm rd) := s in
+  let '(mkSt c l pc h ch pe so se w sl ub da dp pa m d rm rd) := s in
   match l with
   | LRun => if pe then
-              if h then Some (mkSt c l pc h true false so se w da dp pa m d rm rd)
-              else Some (mkSt c LAbnormal pc h ch false so se w da dp pid_init m d rm rd)
+              if h then
+                (* buffered: the signal waits in the channel; unbuffered: handed over only to a launcher that is
+                   parked in its select at this moment, dropped otherwise *)
+                Some (mkSt c l pc h (ch || negb ub || at_select pc) false so se w sl ub da dp pa m d rm rd)
+              else Some (mkSt c LAbnormal pc h ch false so se w sl ub da dp pid_init m d rm rd)
             else None
   | _ => None
   end.
 
 Definition step_daemon (delay : nat) (s : state) : option state :=
-  let '(mkSt c l pc h ch pe so se w da dp pa m d rm rd) := s in
+  let '(mkSt c l pc h ch pe so se w sl ub da dp pa m d rm rd) := s in
   if da then
     match dp with
-    | DMarker => Some (mkSt c l pc h ch pe so se w da (DDelay delay) pa true d rm rd)
-    | DDelay (S k) => Some (mkSt c l pc h ch pe so se w da (DDelay k) pa m d rm rd)
-    | DDelay O => Some (mkSt c l pc h ch pe so se w da DDone pa m d rm rd)
+    | DMarker => Some (mkSt c l pc h ch pe so se w sl ub da (DDelay delay) pa true d rm rd)
+    | DDelay (S k) => Some (mkSt c l pc h ch pe so se w sl ub da (DDelay k) pa m d rm rd)
+    | DDelay O => Some (mkSt c l pc h ch pe so se w sl ub da DDone pa m d rm rd)
     | DDone => (* Done(): SIGINT to getppid(); after re-parenting that is init, which ignores it *)
-        Some (mkSt c l pc h ch (pe || Nat.eqb pa pid_launcher) so se w da DCont pa m true rm rd)
+        Some (mkSt c l pc h ch (pe || Nat.eqb pa pid_launcher) so se w sl ub da DCont pa m true rm rd)
     | DCont => Some s
     end
   else None.
@@ -167,19 +182,21 @@ Fixpoint nbs_from (h : bool) (l : list action) : bool :=
   end.
 Definition notify_before_start (acts : list action) : bool := nbs_from false acts.
 
-(** Notify, Start, WritePid, SpawnWait exactly once each, WritePid and SpawnWait after Start,
-    then Select at the very end; nothing unrecognised *)
-Fixpoint wf_from (n s w p : bool) (l : list action) : bool :=
+(** Notify (buffered), Start, SpawnWait exactly once each and before the one Select; SpawnWait after Start;
+    WritePid exactly once, anywhere after Start (also after the Select: the pid only has to be on stdout
+    when the launcher exits); nothing unrecognised, no unbuffered Notify *)
+Fixpoint wf_from (n s w p sel : bool) (l : list action) : bool :=
   match l with
-  | [] => false
-  | ANotify :: r => negb n && wf_from true s w p r
-  | AStart :: r => negb s && wf_from n true w p r
-  | AWritePid :: r => s && negb w && wf_from n s true p r
-  | ASpawnWait :: r => s && negb p && wf_from n s w true r
-  | ASelect :: r => n && s && w && p && match r with [] => true | _ => false end
+  | [] => n && s && w && p && sel
+  | ANotify :: r => negb n && negb sel && wf_from true s w p sel r
+  | AStart :: r => negb s && negb sel && wf_from n true w p sel r
+  | AWritePid :: r => s && negb w && wf_from n s true p sel r
+  | ASpawnWait :: r => s && negb p && negb sel && wf_from n s w true sel r
+  | ASelect :: r => n && s && p && negb sel && wf_from n s w p true r
   | AUnknown _ :: _ => false
+  | ANotifyUnbuffered :: _ => false
   end.
-Definition well_formed (acts : list action) : bool := wf_from false false false false acts.
+Definition well_formed (acts : list action) : bool := wf_from false false false false false acts.
 
 (** ** schedules used by the correspondence check: run with disabled steps skipped *)
 Fixpoint run_skip (acts : list action) (delay : nat) (s : state) (ls : list label) : state :=
